@@ -13,7 +13,7 @@ def run_prop(ctx, prop, rule, min_cells=None, require=None):
     ctx.log("debug (overflow-checked) sweep: %d evaluations" % a2["evaluations"])
     cdrv = client.build_cdriver(ctx, sanitize=True)
     blur = (a1["blur_ns"] or [1000])[0]
-    n3, v3, info = client.c_parity(ctx, rel, cdrv, prop, 300000 if q else 3000000, [prop], blur)
+    n3, v3, info = client.c_parity(ctx, rel, cdrv, prop, 300000 if q else 1000000, [prop], blur)
     ctx.log("C library parity + python oracle: %d vectors %s" % (n3, info))
     viol = v1 + v2 + v3
     inconclusive = None
@@ -41,7 +41,7 @@ def run_prop(ctx, prop, rule, min_cells=None, require=None):
     coverage = {
         "evaluations": a1["evaluations"] + a2["evaluations"] + n3,
         "distinct_nontrivial": a1["distinct"] + a2["distinct"],
-        "rule": rule,
+        "rule": rule + ("; distinct counting stopped at 3e6 per shard (memory): distinct_nontrivial is a lower bound" if (a1.get("distinct_capped") or a2.get("distinct_capped")) else ""),
         "samples": s1[:2] + s2[:1],
         "cells": cells if len(cells) < 400 else {"count": len(cells)},
         "outcomes_release": a1["outcomes"],
